@@ -10,6 +10,7 @@ import (
 	"os"
 	"sort"
 	"strings"
+	"sync"
 )
 
 // ---------------------------------------------------------------- PRNG
@@ -211,8 +212,15 @@ func (s *Script) Next(gen func(r *Rand) (Op, bool)) (Op, bool) {
 
 type Stats map[string]int64
 
-func (s Stats) Inc(k string)           { s[k]++ }
-func (s Stats) Add(k string, v int64)  { s[k] += v }
+// statsMu guards every Stats map: node goroutines report probes too.
+var statsMu sync.Mutex
+
+func (s Stats) Inc(k string) { statsMu.Lock(); s[k]++; statsMu.Unlock() }
+func (s Stats) Add(k string, v int64) {
+	statsMu.Lock()
+	s[k] += v
+	statsMu.Unlock()
+}
 func (s Stats) Merge(o Stats) {
 	for k, v := range o {
 		s[k] += v
@@ -264,6 +272,8 @@ func h64(s string) uint64 {
 
 // Event adds to the event log (determinism self-test) — never draws randomness.
 func (r *Recorder) Event(format string, a ...any) {
+	statsMu.Lock()
+	defer statsMu.Unlock()
 	if r.keepLog {
 		fmt.Fprintf(&r.log, format, a...)
 		r.log.WriteByte('\n')
